@@ -10,7 +10,7 @@ Helper lemmas and the inductive invariants are in Proofs/Strand*.lean.  Happens-
 is C04 (`strand_jobs_ordered`), not stated here.
 -/
 import YaclibModel.Proofs.StrandRun
-import YaclibModel.Proofs.StrandTowerN
+import YaclibModel.Proofs.StrandTowerBase
 import YaclibModel.Extracted.Kernels
 import YaclibModel.Model.Skeletons
 
@@ -309,6 +309,10 @@ events `sub a` / `call a` / `drop a` of `L`, and `L`'s job a returns only after 
 /-- the most general executor honouring the contract (the environment of the single-strand model) honours it -/
 theorem specBase_honours_contract : ExecContract specBase := specBase_contract
 
+/-- a restrictive base honours it too: one worker thread with a FIFO queue (abstraction of a one-thread pool / of a
+    manual executor drained by one thread) that may refuse the job at the head of its queue at any time -/
+theorem worker1_honours_contract : ExecContract worker1 := worker1_contract
+
 /-- **contract preservation**, in the form that iterates -/
 theorem strand_refines_contract {L : Exec} (hL : ExecContract L) : ExecContract (strandOver L) :=
   Yaclib.Strand.strand_refines_contract hL
@@ -316,6 +320,10 @@ theorem strand_refines_contract {L : Exec} (hL : ExecContract L) : ExecContract 
 /-- **towers**: n strands on top of each other over any contract-honouring base honour the contract, for every n -/
 theorem tower_satisfies_contract {base : Exec} (hb : ExecContract base) : ∀ n, ExecContract (tower base n) :=
   Yaclib.Strand.tower_satisfies_contract hb
+
+/-- e.g. strands over strands … over a single worker, and over the most general executor -/
+theorem tower_over_worker1_and_spec (n : Nat) : ExecContract (tower worker1 n) ∧ ExecContract (tower specBase n) :=
+  ⟨tower_satisfies_contract worker1_contract n, tower_satisfies_contract specBase_contract n⟩
 
 /-- what C07 says about one strand, as a predicate on its state -/
 structure LevelProps (v : State) : Prop where
